@@ -94,7 +94,9 @@ func sizeCases(quick bool) []sizeCase {
 	}
 	// mixed payload: plain size far above 2B, the incompressible part chosen so that the STORED size sweeps B
 	plain := 3*scanBuf + 77
-	stored := func(r int) int { return len(sizeCase{Family: "mixed-zstd", Plain: plain, Rand: r}.build("probe").stored) }
+	stored := func(r int) int {
+		return len(sizeCase{Family: "mixed-zstd", Plain: plain, Rand: r}.build("probe").stored)
+	}
 	lo, hi := 0, scanBuf+64
 	for lo < hi { // smallest r with stored(r) >= B (stored size grows with the incompressible part)
 		m := (lo + hi) / 2
